@@ -31,12 +31,12 @@ Theorem C02_overlap_decomposition_generic : forall S D base,
 Proof. exact decomposition_iff. Qed.
 Print Assumptions C02_overlap_decomposition_generic.
 
-(* Memo transparency, one direction (partial).  On a document on which every check of the
-   decomposition passes, the executable algorithm reports no conflict -- with the memo
-   tables comparedSet / comparedFieldsAndFragmentSet (L3, memo = true) and without them
-   (memo = false), for every fuel: the memo tables never make the rule reject.
-   Missing: the converse (a conflict found without memo is found with it); it is checked
-   by the differential against L1 only. *)
+(* Memo transparency, one direction (named _partial for that reason; the other direction is
+   C02_overlap_memo_transparent, both together with the reflection C02_overlap_exec_decides).
+   On a document on which every check of the decomposition passes, the executable algorithm
+   reports no conflict -- with the memo tables comparedSet / comparedFieldsAndFragmentSet
+   (L3, memo = true) and without them (memo = false), for every fuel: the memo tables never
+   make the rule reject. *)
 Theorem C02_overlap_memo_transparent_partial : forall S D memo fuel,
   L2_accepts S D -> run_overlap S D memo fuel = [].
 Proof. exact L2_accepts_exec. Qed.
